@@ -144,10 +144,7 @@ Theorem C12_parsers_total :
      parse_xtwinops n (print_winops n hw ++ rest) = Some (dec_int (fst hw), dec_int (snd hw))) /\
   (forall k rest, wf_kitty k = true ->
      parse_kitty_reply (print_kitty k ++ rest) = Some (k_id k, k_msg k)).
-Proof.
-  exact (conj findall_print (conj x_parse_color_wf (conj parse_xtversion_print
-          (conj parse_xtwinops_print parse_kitty_print)))).
-Qed.
+Proof. exact parsers_total_lemma. Qed.
 Print Assumptions C12_parsers_total.
 
 (** *** decision rules *)
